@@ -1,11 +1,188 @@
-import Echse.Model.Daemon
+/-
+  C04 — exactly-once scheduling in the daemon model: an occurrence is run at most once, not before it is
+  due, never if it was already past when the task was loaded; late occurrences collapse into one run;
+  exhausted tasks leave the table.
+
+  `iter s now ko` is one loop iteration at clock value `now` (`tick s now = iter s now none`); with
+  `ko = some k` the `k`-th child is reaped in the same iteration while periodic callbacks are pending
+  (`Op.tickExit`).  `Inv` is the invariant of reachable states (`C12.reachable_inv`, `Inv_run`).
+  Helper lemmas: Echse/Lemmas/Daemon*.lean.
+-/
+import Echse.Lemmas.Daemon4
 namespace C04
 open Echse.Daemon
 
-/-- smoke (general statements replace this): three late occurrences collapse into one run -/
-theorem late_occurrences_collapse :
-    let t : DTask := { sid := 0, uid := "j", owner := 1001, occ := [10, 20, 30, 40], dur := 0, maxSimul := 63 }
-    let (s, t) := startPeriodic { me := 0, now := 5 } t
-    ((tick { s with tasks := [t] } 35).2).length = 1 := by decide
+/-- reachable states are well-formed -/
+theorem reachable_inv (m : Nat) (ops : List Op) (hm : Mono 0 ops) : Inv (run { me := m } ops).1 :=
+  Inv_run ops { me := m } (Inv_init m) hm
+
+/-! ### 1. not early, nothing from the past -/
+
+/-- `not_early`: every spawn of an iteration runs the armed occurrence `c = t.cur` of an in-table task `t`;
+`c` is the head of `t`'s remaining stream, it is past (`c < now`) and was not past at the previous
+iteration (`s.now ≤ c`) -/
+theorem not_early {s : St} {now : Nat} {ko : Option Nat} (h : Inv s) {sp : Spawn} (hsp : sp ∈ (iter s now ko).2) :
+    ∃ t ∈ s.tasks, t.inTable = true ∧ t.uid = sp.uid ∧ t.resched = true ∧ t.occ.head? = some t.cur ∧
+      s.now ≤ t.cur ∧ t.cur < now ∧ sp.asUid = t.owner := by
+  obtain ⟨t, htm, hit, hr, hh, h1, h2, _, he⟩ := spawn_char h hsp
+  exact ⟨t, htm, hit, by rw [he], hr, hh, h1, h2, by rw [he]⟩
+
+theorem not_early_tick {s : St} {now : Nat} (h : Inv s) {sp : Spawn} (hsp : sp ∈ (tick s now).2) :
+    ∃ t ∈ s.tasks, t.inTable = true ∧ t.uid = sp.uid ∧ t.resched = true ∧ t.occ.head? = some t.cur ∧
+      s.now ≤ t.cur ∧ t.cur < now ∧ sp.asUid = t.owner := by
+  rw [tick_eq_iter] at hsp; exact not_early h hsp
+
+/-- `no_past`, loading: a successful `inject` at clock value `s.now` leaves a table entry whose stream is the
+submitted one without the occurrences earlier than `s.now` -/
+theorem no_past_load {s : St} (h : Inv s) (uid : String) (owner : Option Nat) (ms dur : Nat) (occ : List Nat)
+    (peer : Nat) (hs : occ.Pairwise (· ≤ ·)) (hok : (inject s uid owner ms dur occ true peer).2 = true) :
+    ∃ t', (inject s uid owner ms dur occ true peer).1.find uid = some t' ∧
+      t'.occ = occ.dropWhile (· < s.now) ∧ t'.occ = occ.filter (fun o => decide (s.now ≤ o)) ∧
+      ∀ o ∈ t'.occ, s.now ≤ o ∧ o ∈ occ := by
+  rw [inject_eq] at hok ⊢
+  unfold injectSpec at hok ⊢
+  cases he : effOwner s owner peer with
+  | none => rw [he] at hok; cases hok
+  | some e =>
+    rw [he] at hok
+    simp only [] at hok ⊢
+    have hown : ∀ old, s.find uid = some old → old.owner = e := by
+      intro old hf
+      unfold injectAs at hok
+      rw [hf] at hok
+      simp only [Bool.not_true, Bool.false_eq_true, if_false] at hok
+      by_cases ho : old.owner = e
+      · exact ho
+      · rw [if_pos ho] at hok; cases hok
+    obtain ⟨_, t', hf', _, _, _, hocc, _⟩ := injectAs_find h (ms := ms) (dur := dur) hs (effOwner_known he) hown
+    refine ⟨t', hf', hocc, by rw [hocc]; exact dropWhile_eq_filter_of_sorted _ _ hs, ?_⟩
+    intro o ho
+    rw [hocc, dropWhile_eq_filter_of_sorted _ _ hs, List.mem_filter] at ho
+    exact ⟨by simpa using ho.2, ho.1⟩
+
+/-- `no_past`, invariant: in a reachable state no occurrence of an in-table task is earlier than the clock -/
+theorem no_past {s : St} (h : Inv s) {t : DTask} (ht : t ∈ s.tasks) (hit : t.inTable = true) :
+    ∀ o ∈ t.occ, s.now ≤ o := occ_ge_now (h.tinv' ht) hit
+
+/-- `no_past`, histories: as long as no request intervenes, every spawn of a uid (tagged with the clock value
+`n` of its iteration) runs an occurrence `c` of the stream its entry had at the start, with
+`start clock ≤ c < n`; with `no_past_load`: an occurrence already past at load time is never run -/
+theorem no_past_run (s : St) (h : Inv s) (ops : List Op) (hm : Mono s.now ops)
+    (hnr : ∀ op ∈ ops, op.isReq = false) :
+    ∀ p ∈ (run s ops).2.1, ∃ t, s.find p.2.uid = some t ∧ ∃ c ∈ t.occ, s.now ≤ c ∧ c < p.1 :=
+  run_spawn_occ ops s h hm hnr
+
+/-! ### 2. one run per iteration, late occurrences collapse -/
+
+/-- `one_per_tick`, at most: an iteration makes at most one spawn per uid -/
+theorem at_most_one {s : St} (now : Nat) (ko : Option Nat) (h : Inv s) (u : String) :
+    ((iter s now ko).2.filter (·.uid == u)).length ≤ 1 := iter_spawns_uid_le now ko h u
+
+/-- `one_per_tick`, exactly: an in-table task whose armed occurrence is past gets exactly one spawn (when
+spawning does not fail) — also in the iteration in which its last child is reaped -/
+theorem exactly_one {s : St} (now : Nat) (ko : Option Nat) (h : Inv s) {t : DTask} (ht : t ∈ s.tasks)
+    (hit : t.inTable = true) (hr : t.resched = true) (hc : t.cur < now) (hf : s.spawnFail = false) :
+    (iter s now ko).2.filter (·.uid == t.uid) =
+      [{ uid := t.uid, nd := !mayRun { t with nsim := t.nsim - exitDec (exitSid s ko) t },
+         durS := durSecs t.dur, asUid := t.owner }] := by
+  rw [iter_spawns_uid now ko h ht hit, iterSpawns_eq (h.tinv' ht) hit, if_pos ⟨hr, hc, hf⟩]
+
+/-- … and none if its armed occurrence is not past, or it has none -/
+theorem none_if_not_due {s : St} (now : Nat) (ko : Option Nat) (h : Inv s) {t : DTask} (ht : t ∈ s.tasks)
+    (hit : t.inTable = true) (hn : ¬ (t.resched = true ∧ t.cur < now)) :
+    (iter s now ko).2.filter (·.uid == t.uid) = [] := by
+  rw [iter_spawns_uid now ko h ht hit, iterSpawns_eq (h.tinv' ht) hit, if_neg]
+  intro hh; exact hn ⟨hh.1, hh.2.1⟩
+
+/-- `late_collapse`: the iteration drops from the stream of every in-table task exactly the occurrences
+earlier than `now` (all of them go into the single run), none of the others -/
+theorem late_collapse {s : St} {now : Nat} {ko : Option Nat} (h : Inv s) {t t' : DTask} (ht : t ∈ s.tasks)
+    (hit : t.inTable = true) (ht' : t' ∈ (iter s now ko).1.tasks) (hs : t'.sid = t.sid) :
+    t'.occ = t.occ.filter (fun o => decide (now ≤ o)) := by
+  obtain ⟨x, hx, hix⟩ := (mem_iter_tasks h).mp ht'
+  have hk := iterTask_keeps hix
+  have : x = t := h.sidU.inj hx ht (by rw [← hk.1, hs])
+  subst this
+  exact iterTask_occ (h.tinv' hx) hit hix
+
+/-! ### 3. count and order over histories -/
+
+/-- `count`: over a history without requests, the number of spawns of a uid is at most the number of
+occurrences of its table entry that came due (are earlier than the final clock value) -/
+theorem count (s : St) (h : Inv s) (u : String) (ops : List Op) (hm : Mono s.now ops)
+    (hnr : ∀ op ∈ ops, op.isReq = false) :
+    ((run s ops).2.1.filter (·.2.uid == u)).length ≤
+      match s.find u with
+      | some t => (t.occ.filter (fun o => decide (o < (run s ops).1.now))).length
+      | none => 0 :=
+  run_count u ops s h hm hnr
+
+/-- `order`: over any history the clock values of the successive spawns of one uid strictly increase -/
+theorem order (m : Nat) (u : String) (ops : List Op) (hm : Mono 0 ops) :
+    (((run { me := m } ops).2.1.filter (·.2.uid == u)).map (·.1)).Pairwise (· < ·) :=
+  run_order u ops { me := m } (Inv_init m) hm
+
+/-! ### 4. tasks without a future, retiring -/
+
+/-- `never_run_without_future`: a task loaded with no occurrence at or after the clock (or none at all) is
+in the table with an empty stream, and no history without requests ever produces a spawn for it -/
+theorem never_run_without_future {s : St} (h : Inv s) (uid : String) (owner : Option Nat) (ms dur : Nat)
+    (occ : List Nat) (peer : Nat) (hs : occ.Pairwise (· ≤ ·)) (hpast : ∀ o ∈ occ, o < s.now)
+    (hok : (inject s uid owner ms dur occ true peer).2 = true) (ops : List Op)
+    (hm : Mono s.now ops) (hnr : ∀ op ∈ ops, op.isReq = false) :
+    (∃ t', (inject s uid owner ms dur occ true peer).1.find uid = some t' ∧ t'.occ = []) ∧
+    (run (inject s uid owner ms dur occ true peer).1 ops).2.1.filter (·.2.uid == uid) = [] := by
+  obtain ⟨t', hf', _, hocc, _⟩ := no_past_load h uid owner ms dur occ peer hs hok
+  have hnil : t'.occ = [] := by
+    rw [hocc, List.filter_eq_nil_iff]
+    intro o ho
+    have := hpast o ho
+    simp; omega
+  refine ⟨⟨t', hf', hnil⟩, ?_⟩
+  have hinv' : Inv (inject s uid owner ms dur occ true peer).1 := Inv_inject h uid owner ms dur occ true peer hs
+  have hnow : (inject s uid owner ms dur occ true peer).1.now = s.now :=
+    (applyInstr_frame s peer (.sched uid owner ms dur occ true)).now
+  have := run_count uid ops _ hinv' (by rw [hnow]; exact hm) hnr
+  unfold dueBound at this
+  rw [hf'] at this
+  simp only [hnil, List.filter_nil, List.length_nil, Nat.le_zero, List.length_eq_zero_iff] at this
+  exact this
+
+/-- … and, having no live children, it has left the table after the next iteration with a later clock -/
+theorem gone_after_next_tick {s : St} (h : Inv s) {t : DTask} (ht : t ∈ s.tasks) (hit : t.inTable = true)
+    (ho : t.occ = []) (hn : t.nsim = 0) {now : Nat} (hnow : s.now < now) (ko : Option Nat) :
+    (iter s now ko).1.find t.uid = none := retire_iter h ht hit ho hn hnow ko
+
+/-- `retire`: in a reachable state an in-table task with an exhausted stream and no live child can only be
+one that was loaded without a future and never ran, its `unsched` queued for the next iteration
+(`gone_after_next_tick`); every other task left the table when its stream was exhausted and its last
+child had exited -/
+theorem retire {s : St} (h : Inv s) {t : DTask} (ht : t ∈ s.tasks) (ho : t.occ = []) (hn : t.nsim = 0) :
+    t.resched = false ∧ t.cbUnsched = true ∧ t.active = true ∧ t.nrun = 0 ∧ ∃ a, t.due = some a ∧ a ≤ s.now :=
+  retire_phase h ht ho hn
+
+/-- `retire`, the moment: when the last live child of a task with an exhausted stream exits, the task
+leaves the table -/
+theorem retire_on_exit {s : St} (h : Inv s) {t : DTask} (ht : t ∈ s.tasks) (hit : t.inTable = true)
+    (ho : t.occ = []) (hn : t.nsim = 1) {k : Nat} {c : Child} (hc : s.children[k]? = some c)
+    (hl : c.live = true) (hcs : c.sid = t.sid) : (childExit s k).1.find t.uid = none :=
+  retire_exit h ht hit ho hn hc hl hcs
+
+/-! ### concrete histories -/
+
+/-- three late occurrences collapse into one run; the fourth stays armed -/
+example :
+    ((run { me := 0 } [.req 1001 [.sched "j" none 63 0 [10, 20, 30, 40] true], .tick 35]).2.1.map
+      fun p => (p.1, p.2.uid, p.2.nd)) = [(35, "j", false)] ∧
+    ((run { me := 0 } [.req 1001 [.sched "j" none 63 0 [10, 20, 30, 40] true], .tick 35]).1.tasks.map
+      fun t => (t.occ, t.cur)) = [([40], 40)] := by decide
+
+/-- occurrences already past at load time are never run; a task without a future leaves at the next tick -/
+example :
+    (run { me := 0 } [.tick 25, .req 1001 [.sched "j" none 63 0 [10, 20, 30] true], .tick 26, .tick 35]).2.1.map
+      (fun p => p.1) = [35] ∧
+    (run { me := 0 } [.tick 25, .req 1001 [.sched "j" none 63 0 [10, 20] true], .tick 26]).2.1.length = 0 ∧
+    (run { me := 0 } [.tick 25, .req 1001 [.sched "j" none 63 0 [10, 20] true], .tick 26]).1.tasks.length = 0 := by
+  decide
 
 end C04
